@@ -280,8 +280,14 @@ widths!(c_drop, VERIF_PARAM_UNWIND, u2_drop_u8, u2_drop_u16, u2_drop_u32, u2_dro
 static mut FAIL_MASK: u8 = 0;
 static mut ZCALLS: u8 = 0;
 static mut REFUSED: u8 = 0;
+/// refusals only happen while the function under contract runs (the native replay allocator is
+/// global: the test framework's own allocations must not be refused)
+static mut ARMED: bool = false;
 
 unsafe fn refuse_now() -> bool {
+    if !ARMED {
+        return false;
+    }
     let k = ZCALLS;
     if ZCALLS < 7 {
         ZCALLS += 1;
@@ -344,7 +350,9 @@ fn c_make_accessible_oom<C: CellType + kani::Arbitrary>() {
         let j = any_index();
         let before = view(&m, j);
         FAIL_MASK = kani::any();
+        ARMED = true;
         m.make_accessible(s, e);
+        ARMED = false;
         // Reaching this point means the call RETURNED.  Then the tape must be intact: never a
         // null or stale buffer.  (Every access through a null / freed block inside the call is
         // reported by Kani's pointer checks.)
@@ -365,7 +373,9 @@ fn c_write_oom<C: CellType + kani::Arbitrary>() {
         kani::assume(-R <= o && o <= R);
         let x: C = kani::any();
         FAIL_MASK = kani::any();
+        ARMED = true;
         m.write(o, x);
+        ARMED = false;
         assert!(wf(&m));
         assert!(view(&m, o) == x);
         assert!(REFUSED == 0);
